@@ -72,7 +72,7 @@ def _free(draw):
 
 
 def strategy(tier):
-    return st.one_of(_built(), _built(), _built(), _free(), _free(), _free(), _free(), _kay())
+    return st.one_of(_built(), _built(), _built(), _free(), _free(), _free(), _free(), _kay(), _kay())
 
 
 def run_case(case):
